@@ -44,6 +44,11 @@ extern void *mpt_array_set(MPT_STRUCT(array) *arr, const MPT_STRUCT(type_traits)
 		errno = EINVAL;
 		return 0;
 	}
+	/* byte position must be representable */
+	if (off > (long) (SSIZE_MAX / size) || off < -(long) (SSIZE_MAX / size)) {
+		errno = EINVAL;
+		return 0;
+	}
 	pos = off * size;
 	
 	if ((buf = arr->_buf)) {
